@@ -107,7 +107,7 @@ class Run:
         return "exit %d" % self.rc
 
 
-def run_tool(exe, args, cwd, timeout=60, cpu_limit=None, env=None, max_out=4 << 20):
+def run_tool(exe, args, cwd, timeout=60, cpu_limit=None, env=None, max_out=4 << 20, light=False):
     """Runs exe in cwd; stdout/stderr captured to files (large outputs cannot dead-lock); returns Run with bytes decoded as
     latin-1 (1 byte = 1 char) and the child's CPU time from wait4()."""
     r = Run()
@@ -115,7 +115,9 @@ def run_tool(exe, args, cwd, timeout=60, cpu_limit=None, env=None, max_out=4 << 
     fo = tempfile.TemporaryFile()
     fe = tempfile.TemporaryFile()
     t0 = time.time()
-    p = subprocess.Popen(r.cmd, cwd=cwd, stdin=subprocess.DEVNULL, stdout=fo, stderr=fe, env=env, preexec_fn=_limits(cpu_limit, None))
+    # light: no preexec_fn, so that CPython can use vfork/posix_spawn (several times cheaper; for tools that start no children)
+    p = subprocess.Popen(r.cmd, cwd=cwd, stdin=subprocess.DEVNULL, stdout=fo, stderr=fe, env=env,
+                         preexec_fn=None if light else _limits(cpu_limit, None))
     r.timeout = False
     deadline = t0 + timeout
     ru = None
@@ -126,7 +128,10 @@ def run_tool(exe, args, cwd, timeout=60, cpu_limit=None, env=None, max_out=4 << 
         if time.time() > deadline:
             r.timeout = True
             try:
-                os.killpg(p.pid, signal.SIGKILL)
+                if light:
+                    os.kill(p.pid, signal.SIGKILL)
+                else:
+                    os.killpg(p.pid, signal.SIGKILL)
             except OSError:
                 pass
             pid, st, ru = os.wait4(p.pid, 0)
